@@ -7,6 +7,10 @@ BASELINE_OFF = ("cd /repo && cargo nextest run --workspace --no-fail-fast --test
 
 # id -> (level, technique, design_ref, text, note)
 CHECKS = {
+ "C19": ("fault_enumeration", "exhaustive enumeration of fault positions, abandon points and crash points of object writes, and all task interleavings (preemption-bounded for 3 tasks) at file-system-call granularity under a controlled scheduler over tokio's blocking pool, on the real s3s-fs backend",
+         "DESIGN §4 C19, §2 E3",
+         "Faults: body I/O error after each frame, each checksum algorithm wrong and right, corrupted signature of each chunk, through the real service. Abandon and crash points: the write future is dropped (both while its file-system call is queued and after it completed) or the tree is copied and restarted after every single step. Schedules: all interleavings of two writers and of writer + reader (thousands of complete executions), three tasks with a preemption bound, each execution replayable from its choice sequence; determinism of the scheduler is self-checked on every configuration.",
+         "one step = one task runs from one file-system await to the next; finer interleavings (inside one tokio::fs call) and power-loss semantics (unsynced pages) are outside the space"),
  "C18": ("model_checking", "explicit-state breadth-first search with the real s3s-fs backend as transition function against a reference in-memory store; canonical-state hashing; full read set evaluated in every state",
          "DESIGN §4 C18, §2 E4",
          "All histories over a small universe (quick: 1 bucket, 2 keys, 2 contents, 2 metadata values, 2 identities, 1 upload; thorough: 2 buckets, 3 keys, 4 contents up to 3 read buffers, 2-part uploads) are explored to a fixpoint of (model, disk) states; every transition runs on the implementation and is compared with the reference map, and in every reached state every key is read under every Range form, headed, listed under every prefix/start-after, and uploads are listed. Chained operations reach the non-initial states where the defects live (stale metadata, resurrected buckets).",
